@@ -66,6 +66,41 @@ struct Scenario {
     boxvol: f64,
 }
 
+/// a central generator inside a bumpy shell of `k` generators: its cell accumulates one plane per shell generator, so that
+/// plane indices cross 16, 32, 64, 128 (growth of per-plane storage)
+fn shell_input(rng: &mut Rng, k: usize) -> Input {
+    use glam::DVec3;
+    let c = DVec3::new(0.5 + 0.01 * rng.f64(), 0.5 + 0.01 * rng.f64(), 0.5 + 0.01 * rng.f64());
+    let mut gens = vec![c];
+    while gens.len() < k + 1 {
+        let d = DVec3::new(rng.f64() - 0.5, rng.f64() - 0.5, rng.f64() - 0.5);
+        let l = d.length();
+        if l < 0.05 || l > 0.5 {
+            continue;
+        }
+        gens.push(c + d / l * (0.3 * (1. + 0.08 * (rng.f64() - 0.5))));
+    }
+    let mut inp = Input { family: "shell3r_unit_z".to_string(), dim: 3, periodic: false, anchor: DVec3::ZERO, width: DVec3::ONE, gens };
+    inp.sanitize();
+    inp
+}
+
+/// scenario on a shell input: the cell of the central generator after `m` neighbours, clipped by the next one
+fn shell_scenario(inp: &Input, m: usize) -> Option<Scenario> {
+    let dimn = inp.dimensionality();
+    let gens = vh::make_generators(&inp.gens, dimn);
+    let boundary = vh::Boundary::cuboid(inp.anchor, inp.width, false, dimn);
+    let cands = vh::nn_visit(&inp.gens, 0, inp.width, dimn, false, 1000);
+    if cands.len() < m + 2 {
+        return None;
+    }
+    let loc = gens[0].loc();
+    let cell = vh::cell_build_with(loc, 0, &gens, cands[..=m].to_vec(), &boundary);
+    let (j, shift) = cands[m + 1];
+    let hs = vh::bisector(loc, gens[j].loc(), j, shift);
+    Some(Scenario { cell, hs, gens, boundary, boxvol: 1. })
+}
+
 fn scenario(inp: &Input, rng: &mut Rng) -> Option<Scenario> {
     let n = inp.gens.len();
     if n < 2 {
@@ -224,6 +259,23 @@ pub fn run(out: &mut Out, rng: &mut Rng, thorough: bool) {
             }
         }
     }
+    // cells with many planes: the index of the new plane crosses 16, 32, 64, 128
+    let shells = if thorough { 6 } else { 2 };
+    for _ in 0..shells {
+        let inp = shell_input(rng, 140);
+        for target in [16usize, 32, 64, 128] {
+            for delta in [0usize, 1, 2] {
+                // `m` neighbours before the permuted clip: 6 walls + m planes already there, the new plane gets index 6 + m
+                let m = target + delta - 7;
+                let mut r2 = rng.fork(17);
+                let sc = guarded(std::panic::AssertUnwindSafe(|| shell_scenario(&inp, m)));
+                if let Ok(Some(sc)) = sc {
+                    emit_scenario(out, &inp.family, sid, &sc, &mut r2, 3, if thorough { 40 } else { 8 });
+                    sid += 1;
+                }
+            }
+        }
+    }
 }
 
 // ------------------------------------------------------------------------------------------------
@@ -233,11 +285,13 @@ pub fn run(out: &mut Out, rng: &mut Rng, thorough: bool) {
 pub fn run_cycle(out: &mut Out, rng: &mut Rng, thorough: bool) {
     let reps = if thorough { 3000 } else { 300 };
     for _ in 0..reps {
-        let mut cap = 3 + rng.below(9) as usize;
+        // mostly small cycles; one in five starts just below a power of two and grows across it
+        let big = rng.chance(0.2);
+        let mut cap = if big { [13usize, 29, 61, 125, 253][rng.below(5) as usize] + rng.below(3) as usize } else { 3 + rng.below(9) as usize };
         let mut cyc = vh::Cycle::new(cap);
         let mut input = format!("{}", cap);
         let mut res = String::new();
-        let nops = 1 + rng.below(30);
+        let nops = if big { 20 + rng.below(40) } else { 1 + rng.below(30) };
         let mut inited = false;
         let mut panicked = false;
         for _ in 0..nops {
@@ -246,7 +300,7 @@ pub fn run_cycle(out: &mut Out, rng: &mut Rng, thorough: bool) {
                 rng.shuffle(&mut v);
                 [v[0], v[1], v[2]]
             };
-            let kind = if !inited { 1 } else { rng.below(10) };
+            let kind = if !inited { 1 } else if big && rng.chance(0.3) { 0 } else { rng.below(10) };
             match kind {
                 0 => {
                     cyc.grow();
@@ -278,6 +332,9 @@ pub fn run_cycle(out: &mut Out, rng: &mut Rng, thorough: bool) {
                             let off: Vec<usize> = (0..cap).filter(|i| !w.contains(i)).collect();
                             if off.is_empty() {
                                 w[(k + 2) % (w.len() - 1)]
+                            } else if big && rng.chance(0.6) {
+                                // the most recently grown entries
+                                off[off.len() - 1 - rng.below(off.len().min(3) as u64) as usize]
                             } else {
                                 off[rng.below(off.len() as u64) as usize]
                             }
